@@ -1,5 +1,5 @@
 (* GenEncoding.v - GENERATED from /repo by /verif/translator; do not edit.
-   source cssutils/util.py sha1 383caa2d9c2c
+   source cssutils/util.py sha1 d29facb36cbc
    source cssutils/css/cssimportrule.py sha1 c019a65731be
 *)
 From Coq Require Import List NArith ZArith Bool.
@@ -12,7 +12,7 @@ Definition enc := N.
 Definition enc_utf8 : enc := 0.   (* the literal 'utf-8'; other names are numbered by the harness *)
 Definition truthy (o : option enc) : bool := match o with Some _ => true | None => false end.
 
-(* cssutils/util.py:891 _readUrl, the if-chain that picks (encoding, enctype) *)
+(* cssutils/util.py:898 _readUrl, the if-chain that picks (encoding, enctype) *)
 Definition readurl_ladder (overrideEncoding httpEncoding : option enc) (content_is_str : bool)
     (detect_unicode detect_str : option enc * bool) (parentEncoding : option enc)
     : option enc * option N :=
